@@ -466,6 +466,11 @@ class PSBaseParser:
             self._parse1 = self._parse_string_2
             return i + 1
 
+        elif c != b"\n":
+            # The backslash is ignored before any other character
+            # (ISO 32000-1, 7.3.4.2); backslash-\n is a line continuation.
+            self._curtoken += c
+
         # default action
         self._parse1 = self._parse_string
         return i + 1
